@@ -114,6 +114,15 @@ def judge(ex):
             op = r["op"]
             if op[0] in WRITES and op[1] == key:
                 writes.append((r["inv"], r["resp"], op[2] if op[0] == "put" else None))
+        # Whatever order overlapping writes are deemed to have, once all of them completed every read
+        # must return the last one's value ("that write's value or a later one" for every completed
+        # write): two quiescent reads of the epilogue that disagree are wrong under any order.
+        quiet = [r for r in log if r["c"] == "E" and r["op"][0] in READS and r["op"][1] == key]
+        if len({repr(r["res"]) for r in quiet}) > 1:
+            out.append(("quiescent-reads-disagree", key, None, None,
+                        f"with no write in flight or issued, successive reads of {key!r} by client E returned "
+                        + " then ".join(f"{vstr(r['res'])} (t={r['inv'] / NS:g})" for r in quiet)
+                        + "; at most one of them is the last completed write's value"))
         stale = lost = False
         for r in log:
             op = r["op"]
@@ -190,12 +199,13 @@ def analyse(cfg, prefix, ops, starts):
     found = judge(ex)
     res = []
     if found:
-        need_serial = any(c in ("stale-read", "dirty-discarded") for c, *_ in found)
+        need_serial = any(c in ("stale-read", "dirty-discarded", "quiescent-reads-disagree") for c, *_ in found)
         ser = serial_clauses(cfg, prefix, ops) if need_serial else set()
         sysm = ex["sys"]
         for clause, key, shape, layer, desc in found:
             shape_ops = ops
-            if len(ops) > 2 and clause in ("stale-read", "dirty-discarded") and (clause, key) not in ser:
+            if len(ops) > 2 and clause in ("stale-read", "dirty-discarded", "quiescent-reads-disagree") \
+                    and (clause, key) not in ser:
                 # name the smallest overlapping subset that still fails (pairs are explored exhaustively)
                 for drop in range(len(ops)):
                     sub = [o for i, o in enumerate(ops) if i != drop]
@@ -222,8 +232,9 @@ def overlap_job(job):
     step = cfg["step_half"]
     offs = list(range(-span, span + 1, step))
     alphabet = [tuple(o) for o in cfg["alphabet"]]
+    tuples = [tuple(tuple(o) for o in t) for t in cfg["tuples"]] if cfg.get("tuples") else None
     for prefix in cfg["prefixes"]:
-        for ops in itertools.product(alphabet, repeat=n):
+        for ops in (tuples if tuples is not None else itertools.product(alphabet, repeat=n)):
             if not any(len(o) > 1 and o[1] == "a" for o in ops):
                 continue  # at least one operation on the contended key
             for rest in itertools.product(offs, repeat=n - 1):
@@ -243,7 +254,7 @@ def overlap_job(job):
                         stats["viol"][fp] = (desc, {"driver": cfg["driver"], "cfg": cfg, "prefix": prefix,
                                                     "ops": ops, "starts_half": starts})
                 if not stats["samples"] and stats["executions"] % 211 == 7:
-                    stats["samples"].append({"cfg": {k: cfg[k] for k in cfg if k not in ("alphabet", "prefixes")},
+                    stats["samples"].append({"cfg": {k: cfg[k] for k in cfg if k not in ("alphabet", "prefixes", "tuples")},
                                              "prefix": prefix, "ops": ops, "starts_half": starts,
                                              "results": [(fmt_op(r["op"]), vstr(r["res"]) if not isinstance(
                                                  r["res"], (bool, int)) else r["res"]) for r in ex["log"]]})
@@ -287,7 +298,7 @@ def replay_overlap(rep):
     ops = [tuple(o) for o in rep["ops"]]
     starts = tuple(rep["starts_half"])
     ex, found = analyse(cfg, prefix, ops, starts)
-    print(f"driver={rep['driver']} cfg={ {k: cfg[k] for k in cfg if k not in ('alphabet', 'prefixes')} }")
+    print(f"driver={rep['driver']} cfg={ {k: cfg[k] for k in cfg if k not in ('alphabet', 'prefixes', 'tuples')} }")
     print(f"  prefix={[fmt_op(o) for o in prefix]} concurrent={[fmt_op(o) for o in ex['conc']]} "
           f"start ticks={[cfg.get('t_a', T_A) + s / 2 for s in starts]}")
     for r in ex["log"]:
